@@ -1,0 +1,90 @@
+//go:build verif
+
+package badger
+
+// Thin exported wrappers around the MANIFEST code for the /verif harness (engine
+// "manifest"). Nothing here is compiled into a normal build; the wrappers only call
+// production code.
+
+import (
+	"os"
+
+	"github.com/dgraph-io/badger/v4/options"
+	"github.com/dgraph-io/badger/v4/pb"
+)
+
+// VerifManifestFile wraps a *manifestFile.
+type VerifManifestFile struct {
+	mf *manifestFile
+}
+
+func verifManifestOptions(dir string) Options {
+	opt := DefaultOptions(dir)
+	opt.Logger = nil
+	return opt
+}
+
+// VerifOpenManifest calls helpOpenOrCreateManifestFile (read-write) with the given external
+// magic and deletions-rewrite threshold. It returns the wrapper and the replayed manifest.
+func VerifOpenManifest(dir string, extMagic uint16, deletionsThreshold int) (*VerifManifestFile, Manifest, error) {
+	mf, m, err := helpOpenOrCreateManifestFile(dir, false, extMagic, deletionsThreshold, verifManifestOptions(dir))
+	if err != nil {
+		return nil, Manifest{}, err
+	}
+	return &VerifManifestFile{mf: mf}, m, nil
+}
+
+// VerifOpenOrCreateManifestFile calls openOrCreateManifestFile (production threshold).
+func VerifOpenOrCreateManifestFile(dir string, extMagic uint16) (*VerifManifestFile, Manifest, error) {
+	opt := verifManifestOptions(dir)
+	opt.ExternalMagicVersion = extMagic
+	mf, m, err := openOrCreateManifestFile(opt)
+	if err != nil {
+		return nil, Manifest{}, err
+	}
+	return &VerifManifestFile{mf: mf}, m, nil
+}
+
+// AddChanges calls manifestFile.addChanges.
+func (v *VerifManifestFile) AddChanges(changes []*pb.ManifestChange) error {
+	return v.mf.addChanges(changes, verifManifestOptions(v.mf.directory))
+}
+
+// Manifest returns the in-memory manifest of the manifestFile (not a copy).
+func (v *VerifManifestFile) Manifest() *Manifest { return &v.mf.manifest }
+
+// Close closes the file.
+func (v *VerifManifestFile) Close() error { return v.mf.close() }
+
+// VerifReplayManifestFile calls ReplayManifestFile on an open file.
+func VerifReplayManifestFile(fp *os.File, extMagic uint16) (Manifest, int64, error) {
+	return ReplayManifestFile(fp, extMagic, verifManifestOptions(""))
+}
+
+// VerifApplyChangeSet calls applyChangeSet.
+func VerifApplyChangeSet(build *Manifest, cs *pb.ManifestChangeSet) error {
+	return applyChangeSet(build, cs, verifManifestOptions(""))
+}
+
+// VerifCreateManifest calls createManifest.
+func VerifCreateManifest() Manifest { return createManifest() }
+
+// VerifNewCreateChange / VerifNewDeleteChange call the change constructors.
+func VerifNewCreateChange(id uint64, level int, keyID uint64, c uint32) *pb.ManifestChange {
+	return newCreateChange(id, level, keyID, options.CompressionType(c))
+}
+
+func VerifNewDeleteChange(id uint64) *pb.ManifestChange { return newDeleteChange(id) }
+
+// VerifManifestErrKind classifies the sentinel errors of ReplayManifestFile.
+func VerifManifestErrKind(err error) string {
+	switch err {
+	case nil:
+		return ""
+	case errBadMagic:
+		return "bad-magic"
+	case errBadChecksum:
+		return "bad-checksum"
+	}
+	return "other"
+}
